@@ -39,6 +39,10 @@ def run(tier, seed):
         new = {"op": "new", "solver": "periodic", "id": f"p{i}", "maxbs": rng.choice(gen.layouts_for(S)), "gamma": g, "period": period,
                "eps": rng.choice(["1/2", "1/16", "1/1024", "4"]), "clear": rng.randint(0, 1), "sid": f"s{i}", "n_hint": S}
         ks = rng.choice([[5 * (period + 1) + 3], [period, 1, 2 * period + 3, 40], [1, 1, 1, period + 1], [200]])
+        if g != "1":
+            # the discounted measure divides by gamma^(iteration-1): float rounding is amplified by gamma^-(n-1); keep such runs short enough
+            # for the decision to be determined by exact arithmetic (the amplified float noise stays far below every eps used)
+            ks = rng.choice([[min(5 * (period + 1) + 3, 22)], [period, 1, min(2 * period + 3, 12)], [1, 1, 1, period + 1]])
         ops = jobs[i % W][0]
         ops.append({"op": "problem", "id": f"p{i}", "spec": {k: v for k, v in spec.items() if not k.startswith("_")}, "_tags": spec["_tags"]})
         ops.append(new)
